@@ -31,14 +31,40 @@ import (
 //     maps (a map loop may only update the visited values: it becomes `AL.mapVals`, which is
 //     order-independent by construction), the counting loop `for i := a; i < len(x); i++`,
 //     `continue`, `return`, calls of other translated methods;
+//   * `return` and `panic` INSIDE a `for`/`range` loop (also a nested one) and a call of a method that
+//     may panic inside a loop: the fold state carries `ret_n : Option <result type of the function>`
+//     (done the way `break` is done: once it is `some`, the remaining iterations keep the state); after
+//     the loop `match ret_n with | some r => r | none => <rest of the function>`;
+//   * a group of functions may be translated with panic MESSAGES (`panicMsgs`): the result is then
+//     `GoRes R` (`.ok r` / `.panic ⟨message or fmt.Sprintf format string, integer arguments⟩`)
+//     instead of `Option R`;
+//   * pointers that may be nil (configured slice-of-pointer fields, `bookNilableElems`, and pointer
+//     results of functions that `return nil`) are `Option T'`: `p == nil` is `p.isNone`, a field access
+//     `p.f` is `match p with | none => <Go's nil-dereference panic> | some p_n => … p_n.f …`, hoisted
+//     in front of the statement that evaluates it (not allowed under `&&`/`||`); a returned non-nil
+//     pointer is rendered as `some` of the VALUE it points to (the identity of the pointee is not part
+//     of the result: no write-back through a returned pointer);
+//   * `uint8(len(x))` / `uint16(len(x))` wrap: `len % 256` / `len % 65536` (all other integer
+//     conversions are the identity, see above);
+//   * a group may have its OWN rendering of some Go structs (`own`): functions of that group see the
+//     struct with the fields THEY use (the structures of the earlier generated files do not change
+//     when a later group reads more fields);
 //   * slices are values: aliasing between two slices sharing a backing array is NOT modelled.
 // ---------------------------------------------------------------------------------------------
 
 type gty struct {
-	kind string // int bool slice map ptr named unit unknown
-	elem *gty
-	key  *gty
-	name string
+	kind    string // int bool slice map ptr named unit unknown
+	elem    *gty
+	key     *gty
+	name    string
+	nilable bool // kind ptr: the pointer may be nil (rendered as `Option`)
+}
+
+func (t *gty) isNilable() bool { return t != nil && t.kind == "ptr" && t.nilable }
+
+// slice-of-pointer fields some of whose elements are nil (`struct.field`)
+var bookNilableElems = map[string]bool{
+	"table.components": true, // `components []*column`: nil for the components the table has no column for
 }
 
 var (
@@ -134,6 +160,8 @@ func (c *bctx) extApp(em extMethod, recv string, args []ast.Expr) string {
 type bookFnKey struct{ recv, name string }
 
 type bookFnInfo struct {
+	exc       bool   // panics carry their message (`GoRes`), not `Option`
+	retParts  []*gty // the types of the results, one by one
 	inline    string // non-empty: the function is inlined at call sites
 	leanName  string
 	recvTy    string
@@ -147,21 +175,28 @@ type bookFnInfo struct {
 	order     int
 }
 
+type fnCacheKey struct {
+	bookFnKey
+	variant string // "" or the group whose own structs the function's signature mentions
+}
+
 type book struct {
-	p        *pkgFiles
-	structs  map[string]*gstruct
-	intTypes map[string]bool
-	consts   map[string]string
-	fns      map[bookFnKey]*bookFnInfo
-	iotaBase map[*ast.GenDecl]int
-	files    map[bookFnKey]string
-	stack    map[bookFnKey]bool
-	counter  int
+	p          *pkgFiles
+	cur        *bookGroup          // the group being translated / emitted
+	ownStructs map[string]*gstruct // group file + ":" + Go struct name -> the group's own copy
+	structs    map[string]*gstruct
+	intTypes   map[string]bool
+	consts     map[string]string
+	fns        map[fnCacheKey]*bookFnInfo
+	iotaBase   map[*ast.GenDecl]int
+	files      map[bookFnKey]string
+	stack      map[bookFnKey]bool
+	counter    int
 }
 
 func newBook(p *pkgFiles) *book {
-	b := &book{p: p, structs: map[string]*gstruct{}, intTypes: map[string]bool{}, consts: map[string]string{},
-		fns: map[bookFnKey]*bookFnInfo{}, files: map[bookFnKey]string{}, stack: map[bookFnKey]bool{}, iotaBase: map[*ast.GenDecl]int{}}
+	b := &book{p: p, structs: map[string]*gstruct{}, ownStructs: map[string]*gstruct{}, intTypes: map[string]bool{}, consts: map[string]string{},
+		fns: map[fnCacheKey]*bookFnInfo{}, files: map[bookFnKey]string{}, stack: map[bookFnKey]bool{}, iotaBase: map[*ast.GenDecl]int{}}
 	basic := map[string]bool{"int": true, "int8": true, "int16": true, "int32": true, "int64": true, "uint": true,
 		"uint8": true, "uint16": true, "uint32": true, "uint64": true, "uintptr": true}
 	for k := range basic {
@@ -245,7 +280,11 @@ func newBook(p *pkgFiles) *book {
 						continue
 					}
 					for _, n := range fl.Names {
-						gs.fields = append(gs.fields, gfield{n.Name, ty})
+						fty := ty
+						if bookNilableElems[gs.name+"."+n.Name] && ty.kind == "slice" && ty.elem.kind == "ptr" {
+							fty = &gty{kind: "slice", elem: &gty{kind: "ptr", elem: ty.elem.elem, nilable: true}}
+						}
+						gs.fields = append(gs.fields, gfield{n.Name, fty})
 					}
 				}
 				b.structs[gs.name] = gs
@@ -253,6 +292,30 @@ func newBook(p *pkgFiles) *book {
 		}
 	}
 	return b
+}
+
+// gstructOf: the struct as the current group sees it (its own copy, with its own set of used fields, for
+// the structs the group renders itself)
+func (b *book) gstructOf(name string) (*gstruct, bool) {
+	base, ok := b.structs[name]
+	if !ok {
+		return nil, false
+	}
+	if b.cur != nil {
+		if _, own := b.cur.own[name]; own {
+			key := b.cur.file + ":" + name
+			if gs, ok := b.ownStructs[key]; ok {
+				return gs, true
+			}
+			gs := &gstruct{name: name, fields: base.fields, used: map[string]bool{}}
+			for _, f := range b.cur.ownFields[name] {
+				gs.used[f] = true
+			}
+			b.ownStructs[key] = gs
+			return gs, true
+		}
+	}
+	return base, true
 }
 
 // iotaBase: N of `iota + N` / `N + iota`
@@ -355,7 +418,7 @@ func (b *book) goType(e ast.Expr, tparams map[string]bool) *gty {
 
 // field lookup with promotion through embedded structs
 func (b *book) field(structName, f string) (*gty, string, bool) {
-	gs, ok := b.structs[structName]
+	gs, ok := b.gstructOf(structName)
 	if !ok {
 		return nil, "", false
 	}
@@ -381,6 +444,11 @@ func (b *book) field(structName, f string) (*gty, string, bool) {
 }
 
 func (b *book) leanStruct(name string) string {
+	if b.cur != nil {
+		if ln, ok := b.cur.own[name]; ok {
+			return ln
+		}
+	}
 	if ext, ok := bookExternal[name]; ok {
 		return ext
 	}
@@ -398,6 +466,9 @@ func (b *book) leanType(t *gty) string {
 	case "map":
 		return "(AL " + b.leanType(t.elem) + ")"
 	case "ptr":
+		if t.nilable {
+			return "(Option " + b.leanType(t.elem) + ")"
+		}
 		return b.leanType(t.elem)
 	case "named":
 		return b.leanStruct(t.name)
@@ -431,6 +502,9 @@ func (b *book) dflt(t *gty) string {
 	case "slice", "map":
 		return "[]"
 	case "ptr":
+		if t.nilable {
+			return "none"
+		}
 		return b.dflt(t.elem)
 	case "named":
 		if z, ok := bookExtZero[t.name]; ok {
@@ -469,8 +543,15 @@ type bctx struct {
 	info     *bookFnInfo
 	recv     string
 	tmp      int
-	noBind   int // >0 inside a branch that joins or a loop body: a panicking call cannot be bound there
+	noBind   int     // >0 inside a branch that joins or a loop body: a panicking call cannot be bound there
+	exc      bool    // panics carry their message (the group's `panicMsgs`)
+	curK     *bcont  // the continuation of the statement being translated
+	hoists   []hoist // nil checks of the pointers the current statement dereferences
+	sawExit  bool    // (scratch translation of a loop body) a `return`/panic was seen
 }
+
+// a dereference `p.f` of a pointer that may be nil: `match ptr with | none => panic | some name => …`
+type hoist struct{ ptr, name string }
 
 type bcont struct {
 	fall   string                     // text yielded when control falls off the end of the block
@@ -478,6 +559,52 @@ type bcont struct {
 	cont   string                     // `continue` ("" outside loops)
 	brk    string                     // `break`: the loop state once the break flag is set ("" where unsupported)
 	brkVar string
+	// `panic`: the text yielded for a panic with the given value (a `GoPanic` term; ignored by the
+	// `Option` convention)
+	pan func(pv string) string
+	// inside a loop whose state carries the early-return variable: its name
+	retVar string
+	// the text that follows a loop that may have set the early-return variable `rv` (nil: unsupported here)
+	after func(rv, ind string) string
+}
+
+const nilDerefPanic = `({ msg := "runtime error: invalid memory address or nil pointer dereference", args := [] } : GoPanic)`
+
+// panText: a panic as a value of the function's result type
+func (c *bctx) panText(pv string) string {
+	if c.exc {
+		return ".panic " + pv
+	}
+	return "none"
+}
+
+// dummyK: a continuation for scratch translations; it records that the statements may leave the function
+func (c *bctx) dummyK() bcont {
+	return bcont{fall: "()", cont: "()", brk: "()", brkVar: "brk_scratch",
+		ret:   func([]string) string { c.sawExit = true; return "()" },
+		pan:   func(string) string { c.sawExit = true; return "()" },
+		after: func(string, string) string { return "" }}
+}
+
+// flushHoists emits the nil checks collected while the current statement was translated
+func (c *bctx) flushHoists(out *strings.Builder, ind string) {
+	if len(c.hoists) == 0 {
+		return
+	}
+	hs := c.hoists
+	c.hoists = nil
+	if c.noBind > 0 {
+		problem("%s: dereference of a pointer that may be nil inside a joining branch", c.where)
+		return
+	}
+	if c.curK == nil || c.curK.pan == nil {
+		problem("%s: dereference of a pointer that may be nil where a panic cannot be yielded", c.where)
+		return
+	}
+	c.mayPanic = true
+	for _, h := range hs {
+		fmt.Fprintf(out, "%smatch %s with\n%s| none => %s\n%s| some %s =>\n", ind, h.ptr, ind, c.curK.pan(nilDerefPanic), ind, h.name)
+	}
 }
 
 func (c *bctx) bad(n ast.Node, what string) (string, *gty) {
@@ -597,6 +724,13 @@ func (c *bctx) expr(e ast.Expr) (string, *gty) {
 			return c.bad(e, "math constant")
 		}
 		bs, bt := c.expr(x.X)
+		if bt.isNilable() {
+			// Go panics when the pointer is nil: the check is hoisted in front of the statement
+			pn := c.fresh("p")
+			c.hoists = append(c.hoists, hoist{bs, pn})
+			ft := c.typeOfStructField(bt.elem, x.Sel.Name, e)
+			return "(" + pn + ")." + x.Sel.Name, ft
+		}
 		ft := c.typeOfStructField(bt, x.Sel.Name, e)
 		return "(" + bs + ")." + x.Sel.Name, ft
 	case *ast.IndexExpr:
@@ -630,8 +764,31 @@ func (c *bctx) expr(e ast.Expr) (string, *gty) {
 		}
 		return s, bt
 	case *ast.BinaryExpr:
+		// comparison of a pointer with nil
+		if x.Op == token.EQL || x.Op == token.NEQ {
+			other := ast.Expr(nil)
+			if id, ok := x.Y.(*ast.Ident); ok && id.Name == "nil" {
+				other = x.X
+			} else if id, ok := x.X.(*ast.Ident); ok && id.Name == "nil" {
+				other = x.Y
+			}
+			if other != nil {
+				os, ot := c.expr(other)
+				if !ot.isNilable() {
+					return c.bad(e, "comparison with nil of something that is not a pointer that may be nil")
+				}
+				if x.Op == token.EQL {
+					return "(" + os + ").isNone", tyBool
+				}
+				return "(" + os + ").isSome", tyBool
+			}
+		}
 		ls, lt := c.expr(x.X)
+		nh := len(c.hoists)
 		rs, _ := c.expr(x.Y)
+		if (x.Op == token.LAND || x.Op == token.LOR) && len(c.hoists) > nh {
+			return c.bad(e, "dereference of a pointer that may be nil in the right operand of && / ||")
+		}
 		switch x.Op {
 		case token.ADD:
 			return "(" + ls + " + " + rs + ")", tyInt
@@ -685,7 +842,7 @@ func (c *bctx) composite(x *ast.CompositeLit) (string, *gty) {
 		if z, ok := bookExtZero[ty.name]; ok && len(x.Elts) == 0 {
 			return z, ty
 		}
-		gs, ok := c.b.structs[ty.name]
+		gs, ok := c.b.gstructOf(ty.name)
 		if !ok {
 			break
 		}
@@ -744,6 +901,15 @@ func (c *bctx) call(x *ast.CallExpr) (string, *gty) {
 			return c.bad(x, "make")
 		case c.b.intTypes[f.Name] && len(x.Args) == 1: // conversion
 			s, _ := c.expr(x.Args[0])
+			// a narrowing conversion of a length wraps
+			if ce, ok := x.Args[0].(*ast.CallExpr); ok && src(ce.Fun) == "len" {
+				switch f.Name {
+				case "uint8":
+					return "(" + s + " % 256)", tyInt
+				case "uint16":
+					return "(" + s + " % 65536)", tyInt
+				}
+			}
 			return s, tyInt
 		case (f.Name == "max" || f.Name == "min") && len(x.Args) == 2: // builtin
 			a, _ := c.expr(x.Args[0])
@@ -817,9 +983,46 @@ func (c *bctx) call(x *ast.CallExpr) (string, *gty) {
 
 func (c *bctx) isSlice(e ast.Expr) bool {
 	saved := len(problems)
+	nh := len(c.hoists)
 	_, t := c.expr(e)
+	c.hoists = c.hoists[:nh]
 	problems = problems[:saved]
 	return t.kind == "slice"
+}
+
+// panicValue renders the argument of `panic(…)` as a `GoPanic`: a string literal, or `fmt.Sprintf` of a
+// literal format string and integer arguments (the format string is kept as the message)
+func (c *bctx) panicValue(ce *ast.CallExpr) string {
+	if len(ce.Args) != 1 {
+		s, _ := c.bad(ce, "panic call")
+		return s
+	}
+	lit := func(e ast.Expr) (string, bool) {
+		bl, ok := e.(*ast.BasicLit)
+		if !ok || bl.Kind != token.STRING || !strings.HasPrefix(bl.Value, "\"") || strings.Contains(bl.Value, "\\") {
+			return "", false
+		}
+		return bl.Value, true
+	}
+	if m, ok := lit(ce.Args[0]); ok {
+		return "({ msg := " + m + ", args := [] } : GoPanic)"
+	}
+	if call, ok := ce.Args[0].(*ast.CallExpr); ok && src(call.Fun) == "fmt.Sprintf" && len(call.Args) >= 1 {
+		if m, ok := lit(call.Args[0]); ok {
+			var args []string
+			for _, a := range call.Args[1:] {
+				as, at := c.expr(a)
+				if at == nil || at.kind != "int" {
+					s, _ := c.bad(ce, "panic message argument that is not an integer")
+					return s
+				}
+				args = append(args, as)
+			}
+			return "({ msg := " + m + ", args := [" + strings.Join(args, ", ") + "] } : GoPanic)"
+		}
+	}
+	s, _ := c.bad(ce, "panic message")
+	return s
 }
 
 // read renders the current value of a resolved path
@@ -860,6 +1063,10 @@ func (c *bctx) setPath0(path ast.Expr, v string, out *strings.Builder, ind strin
 		}
 	case *ast.SelectorExpr:
 		bs, bt := c.read(x.X)
+		if bt.isNilable() {
+			c.bad(path, "assignment through a pointer that may be nil")
+			return
+		}
 		c.typeOfStructField(bt, x.Sel.Name, path)
 		c.setPath0(x.X, "({ ("+bs+") with "+x.Sel.Name+" := "+v+" } : "+c.b.leanType(bt)+")", out, ind)
 	case *ast.IndexExpr:
@@ -947,16 +1154,20 @@ func (c *bctx) assignedIn(stmts []ast.Stmt) []string {
 		saveVars[k] = &cp
 	}
 	saveAssigned, saveMut, saveUnder, saveTmp, savePanic := c.assigned, c.mutated, c.under, c.tmp, c.mayPanic
+	saveHoists, saveK, saveNoBind := c.hoists, c.curK, c.noBind
 	outer := map[string]bool{}
 	for k := range c.vars {
 		outer[k] = true
 	}
 	c.assigned = map[string]bool{}
 	c.mutated = map[string]bool{}
+	c.hoists = nil
+	c.noBind = 0
 	nprob := len(problems)
 	var scratch strings.Builder
-	c.block(stmts, bcont{fall: "()", ret: func([]string) string { return "()" }, cont: "()", brk: "()", brkVar: "brk_scratch"}, &scratch, "")
+	c.block(stmts, c.dummyK(), &scratch, "")
 	problems = problems[:nprob]
+	c.hoists, c.curK, c.noBind = saveHoists, saveK, saveNoBind
 	var names []string
 	for k := range c.assigned {
 		if outer[k] {
@@ -976,11 +1187,14 @@ func (c *bctx) assignedBy(emit func()) []string {
 	for k := range c.vars {
 		outer[k] = true
 	}
+	saveHoists, saveK := c.hoists, c.curK
 	c.assigned = map[string]bool{}
 	c.mutated = map[string]bool{}
+	c.hoists = nil
 	nprob := len(problems)
 	emit()
 	problems = problems[:nprob]
+	c.hoists, c.curK = saveHoists, saveK
 	var names []string
 	for k := range c.assigned {
 		if outer[k] {
@@ -1115,10 +1329,12 @@ func (c *bctx) bindCall(name string, x *ast.CallExpr, out *strings.Builder, ind 
 		return false
 	}
 	saved := len(problems)
+	nh := len(c.hoists)
 	rs, rt := c.expr(sel.X)
 	problems = problems[:saved]
 	bt := rt.deref()
-	if bt == nil || bt.kind != "named" {
+	if bt == nil || bt.kind != "named" || rt.isNilable() {
+		c.hoists = c.hoists[:nh]
 		return false
 	}
 	key := bookFnKey{bt.name, sel.Sel.Name}
@@ -1164,7 +1380,20 @@ func (c *bctx) bindCall(name string, x *ast.CallExpr, out *strings.Builder, ind 
 			return true
 		}
 		c.mayPanic = true
-		fmt.Fprintf(out, "%smatch %s with\n%s| none => none\n%s| some %s =>\n", ind, app, ind, ind, pat)
+		if c.curK == nil || c.curK.pan == nil {
+			c.bad(x, "call of a method that may panic where a panic cannot be yielded")
+			return true
+		}
+		if info.exc != c.exc {
+			c.bad(x, "call of a method that may panic and was translated with the other panic convention")
+			return true
+		}
+		if c.exc {
+			ev := c.fresh("e")
+			fmt.Fprintf(out, "%smatch %s with\n%s| .panic %s => %s\n%s| .ok %s =>\n", ind, app, ind, ev, c.curK.pan(ev), ind, pat)
+		} else {
+			fmt.Fprintf(out, "%smatch %s with\n%s| none => %s\n%s| some %s =>\n", ind, app, ind, c.curK.pan(""), ind, pat)
+		}
 	} else {
 		fmt.Fprintf(out, "%slet %s := %s\n", ind, pat, app)
 	}
@@ -1322,7 +1551,36 @@ func (c *bctx) callStmt(x *ast.CallExpr, out *strings.Builder, ind string, k bco
 // block translates a statement list; the result is an expression (a let-chain)
 func (c *bctx) block(stmts []ast.Stmt, k bcont, out *strings.Builder, ind string) {
 	for i, st := range stmts {
-		rest := stmts[i+1:]
+		kk := k
+		c.curK = &kk
+		switch st.(type) {
+		case *ast.IfStmt, *ast.RangeStmt, *ast.ForStmt:
+			// compound: the nil checks of a condition are emitted where the condition is
+			if c.stmt(st, stmts[i+1:], k, out, ind) {
+				return
+			}
+			if len(c.hoists) > 0 {
+				c.hoists = nil
+				c.bad(st, "dereference of a pointer that may be nil in this position")
+			}
+		default:
+			// the nil checks of the pointers the statement dereferences come first
+			var sb strings.Builder
+			done := c.stmt(st, stmts[i+1:], k, &sb, ind)
+			c.flushHoists(out, ind)
+			out.WriteString(sb.String())
+			if done {
+				return
+			}
+		}
+	}
+	fmt.Fprintf(out, "%s%s\n", ind, k.fall)
+}
+
+// stmt translates one statement; true: control does not reach the next statement (or the statement
+// consumed the rest of the block)
+func (c *bctx) stmt(st ast.Stmt, rest []ast.Stmt, k bcont, out *strings.Builder, ind string) bool {
+	{
 		switch s := st.(type) {
 		case *ast.AssignStmt:
 			c.assign(s, out, ind)
@@ -1338,26 +1596,34 @@ func (c *bctx) block(stmts []ast.Stmt, k bcont, out *strings.Builder, ind string
 			ce, ok := s.X.(*ast.CallExpr)
 			if !ok {
 				c.bad(s, "expression statement")
-				continue
+				return false
 			}
 			if id, ok := ce.Fun.(*ast.Ident); ok {
 				switch id.Name {
 				case "panic":
 					c.mayPanic = true
-					fmt.Fprintf(out, "%snone\n", ind)
-					return
+					pv := ""
+					if c.exc {
+						pv = c.panicValue(ce)
+					}
+					if k.pan == nil {
+						c.bad(s, "panic where it cannot be yielded")
+						return true
+					}
+					fmt.Fprintf(out, "%s%s\n", ind, k.pan(pv))
+					return true
 				case "delete":
 					ms, _ := c.expr(ce.Args[0])
 					ks, _ := c.expr(ce.Args[1])
 					c.setPath(c.resolve(ce.Args[0]), "(AL.erase ("+ms+") ("+ks+"))", out, ind)
-					continue
+					return false
 				case "copy":
 					c.bad(s, "copy")
-					continue
+					return false
 				}
 			}
 			if c.isMutexCall(ce) {
-				continue
+				return false
 			}
 			if handled, _ := c.callStmt(ce, out, ind, k, false); !handled {
 				c.bad(s, "call statement")
@@ -1385,54 +1651,68 @@ func (c *bctx) block(stmts []ast.Stmt, k bcont, out *strings.Builder, ind string
 								if info.mayPanic {
 									c.mayPanic = true
 								}
-								return
+								return true
 							}
 						}
 					}
 				}
 			}
 			var vals []string
-			for _, r := range s.Results {
+			for i, r := range s.Results {
 				if id, ok := r.(*ast.Ident); ok && id.Name == "nil" && len(s.Results) == 1 && c.info.ret != nil &&
 					(c.info.ret.kind == "slice" || c.info.ret.kind == "map") {
 					vals = append(vals, "[]") // a nil slice is the empty list
+					continue
+				}
+				// a pointer result that may be nil: `nil` is `none`, a pointer is `some` of the value it points to
+				if len(s.Results) == len(c.info.retParts) && c.info.retParts[i].isNilable() {
+					if id, ok := r.(*ast.Ident); ok && id.Name == "nil" {
+						vals = append(vals, "none")
+						continue
+					}
+					rs, rt := c.expr(r)
+					if rt.isNilable() {
+						vals = append(vals, rs)
+					} else {
+						vals = append(vals, "(some ("+rs+"))")
+					}
 					continue
 				}
 				rs, _ := c.expr(r)
 				vals = append(vals, rs)
 			}
 			fmt.Fprintf(out, "%s%s\n", ind, k.ret(vals))
-			return
+			return true
 		case *ast.BranchStmt:
 			if s.Tok == token.CONTINUE && k.cont != "" {
 				fmt.Fprintf(out, "%s%s\n", ind, k.cont)
-				return
+				return true
 			}
 			if s.Tok == token.BREAK && s.Label == nil && k.brk != "" {
 				fmt.Fprintf(out, "%slet %s := true\n%s%s\n", ind, k.brkVar, ind, k.brk)
-				return
+				return true
 			}
 			c.bad(s, "branch statement")
-			return
+			return true
 		case *ast.IfStmt:
 			if c.ifStmt(s, rest, k, out, ind) {
-				return
+				return true
 			}
 		case *ast.RangeStmt:
-			c.rangeStmt(s, out, ind)
+			c.rangeStmt(s, k, out, ind)
 		case *ast.ForStmt:
-			c.forStmt(s, out, ind)
+			c.forStmt(s, k, out, ind)
 		case *ast.DeclStmt:
 			gd, ok := s.Decl.(*ast.GenDecl)
 			if !ok || gd.Tok != token.VAR {
 				c.bad(s, "declaration")
-				continue
+				return false
 			}
 			for _, sp := range gd.Specs {
 				vs := sp.(*ast.ValueSpec)
 				if vs.Type == nil || len(vs.Values) != 0 {
 					c.bad(s, "var declaration with initialiser")
-					continue
+					return false
 				}
 				ty := c.b.goType(vs.Type, nil)
 				zero := ""
@@ -1448,7 +1728,7 @@ func (c *bctx) block(stmts []ast.Stmt, k bcont, out *strings.Builder, ind string
 				}
 				if zero == "" {
 					c.bad(s, "var declaration of this type")
-					continue
+					return false
 				}
 				for _, n := range vs.Names {
 					fmt.Fprintf(out, "%slet %s := %s\n", ind, n.Name, zero)
@@ -1459,7 +1739,7 @@ func (c *bctx) block(stmts []ast.Stmt, k bcont, out *strings.Builder, ind string
 			c.bad(st, "statement")
 		}
 	}
-	fmt.Fprintf(out, "%s%s\n", ind, k.fall)
+	return false
 }
 
 func (c *bctx) assign(s *ast.AssignStmt, out *strings.Builder, ind string) {
@@ -1680,7 +1960,21 @@ func (c *bctx) ifStmt(s *ast.IfStmt, rest []ast.Stmt, k bcont, out *strings.Buil
 			c.restoreVars(saveVars)
 			return
 		}
-		cs, _ := c.expr(s.Cond)
+		// a condition that is a call of a method that may panic (`if x.m() {` / `if !x.m() {`) is bound first
+		cs := ""
+		if call, neg := c.panickingCond(s.Cond); call != nil {
+			tmp := c.fresh("cond")
+			if !c.bindCall(tmp, call, b, ind2) {
+				c.bad(s.Cond, "condition that may panic")
+			}
+			cs = tmp
+			if neg {
+				cs = "(!" + tmp + ")"
+			}
+		} else {
+			cs, _ = c.expr(s.Cond)
+		}
+		c.flushHoists(b, ind2)
 		fmt.Fprintf(b, "%sif %s then\n", ind2, cs)
 		c.block(s.Body.List, thenK, b, ind2+"  ")
 		c.restoreVars(saveVars)
@@ -1701,7 +1995,7 @@ func (c *bctx) ifStmt(s *ast.IfStmt, rest []ast.Stmt, k bcont, out *strings.Buil
 		return true
 	case !thenTerm && !elseTerm:
 		// both fall through: the branches yield the variables they assign
-		dummy := bcont{fall: "()", ret: func([]string) string { return "()" }, cont: "()", brk: "()", brkVar: "brk_scratch"}
+		dummy := c.dummyK()
 		names := c.assignedBy(func() {
 			var scratch strings.Builder
 			emitBranches(dummy, dummy, elseList, &scratch, "")
@@ -1709,6 +2003,9 @@ func (c *bctx) ifStmt(s *ast.IfStmt, rest []ast.Stmt, k bcont, out *strings.Buil
 		tup := tupleOf(names)
 		sub := bcont{fall: tup, ret: func([]string) string {
 			problem("%s: return inside a branch that also falls through", c.where)
+			return tup
+		}, pan: func(string) string {
+			problem("%s: panic inside a branch that also falls through", c.where)
 			return tup
 		}, cont: ""}
 		if k.cont != "" {
@@ -1732,6 +2029,45 @@ func (c *bctx) ifStmt(s *ast.IfStmt, rest []ast.Stmt, k bcont, out *strings.Buil
 		c.bad(s, "if with one terminating and one falling branch and an else")
 		return false
 	}
+}
+
+// panickingCond: the condition is `x.m(…)` or `!x.m(…)` for a translated method m that may panic
+func (c *bctx) panickingCond(e ast.Expr) (*ast.CallExpr, bool) {
+	neg := false
+	if pe, ok := e.(*ast.ParenExpr); ok {
+		e = pe.X
+	}
+	if ue, ok := e.(*ast.UnaryExpr); ok && ue.Op == token.NOT {
+		neg = true
+		e = ue.X
+	}
+	ce, ok := e.(*ast.CallExpr)
+	if !ok {
+		return nil, false
+	}
+	sel, ok := ce.Fun.(*ast.SelectorExpr)
+	if !ok {
+		return nil, false
+	}
+	saved, nh := len(problems), len(c.hoists)
+	_, rt := c.expr(sel.X)
+	problems, c.hoists = problems[:saved], c.hoists[:nh]
+	bt := rt.deref()
+	if bt == nil || bt.kind != "named" || rt.isNilable() {
+		return nil, false
+	}
+	key := bookFnKey{bt.name, sel.Sel.Name}
+	if _, isExt := bookExtMethods[key]; isExt {
+		return nil, false
+	}
+	if fd, _ := c.b.findDecl(key); fd == nil {
+		return nil, false
+	}
+	info := c.b.translate(key)
+	if info == nil || !info.ok || !info.mayPanic {
+		return nil, false
+	}
+	return ce, neg
 }
 
 // hasBreak: does the statement list contain a `break` of the enclosing loop (not of a nested loop or switch)?
@@ -1775,19 +2111,23 @@ func (c *bctx) restoreVars(m map[string]*bvar) {
 	}
 }
 
-func (c *bctx) loop(rangeText string, idxName string, pre func(b *strings.Builder, ind string), body []ast.Stmt, out *strings.Builder, ind string) {
+func (c *bctx) loop(rangeText string, idxName string, pre func(b *strings.Builder, ind string), body []ast.Stmt, k bcont, out *strings.Builder, ind string) {
 	save := c.copyVars()
 	// discover the loop state
 	var scratch strings.Builder
 	pre(&scratch, "")
+	prevExit := c.sawExit
+	c.sawExit = false
 	names := c.assignedIn(body)
+	exits := c.sawExit // the body may `return`, panic or call something that may panic
+	c.sawExit = prevExit || exits
 	c.restoreVars(save)
-	if len(names) == 0 {
+	if len(names) == 0 && !exits {
 		// no effect on outer variables — or the body is not translatable: translate it once for
 		// real (into a discarded buffer) so that a problem is recorded and not silently dropped
 		var discard strings.Builder
 		pre(&discard, "")
-		c.block(body, bcont{fall: "()", cont: "()", brk: "()", brkVar: "brk_scratch", ret: func([]string) string { return "()" }}, &discard, "")
+		c.block(body, c.dummyK(), &discard, "")
 		c.restoreVars(save)
 		return
 	}
@@ -1800,29 +2140,73 @@ func (c *bctx) loop(rangeText string, idxName string, pre func(b *strings.Builde
 		save[brkVar] = &bvar{ty: tyBool}
 		names = append(names, brkVar)
 	}
+	// `return` / `panic` inside the loop: the loop state carries `ret : Option <result of the function>`;
+	// once it is `some`, the remaining iterations keep the state. A loop nested in such a loop uses the
+	// same variable.
+	retVar := ""
+	if exits {
+		retVar = k.retVar
+		if retVar == "" {
+			retVar = c.fresh("ret")
+			fmt.Fprintf(out, "%slet %s : Option (RESTYPE⟦⟧) := none\n", ind, retVar)
+			c.vars[retVar] = &bvar{ty: tyUnk}
+			save[retVar] = &bvar{ty: tyUnk}
+		}
+		has := false
+		for _, n := range names {
+			has = has || n == retVar
+		}
+		if !has {
+			names = append(names, retVar)
+		}
+	}
 	tup := tupleOf(names)
 	fmt.Fprintf(out, "%slet %s := (%s).foldl (fun %s %s =>\n", ind, tup, rangeText, tup, idxName)
 	bodyInd := ind + "  "
 	if brkVar != "" {
 		fmt.Fprintf(out, "%sif %s then %s else\n", bodyInd, brkVar, tup)
 	}
+	if retVar != "" {
+		fmt.Fprintf(out, "%sif (%s).isSome then %s else\n", bodyInd, retVar, tup)
+	}
 	pre(out, bodyInd)
-	k := bcont{fall: tup, cont: tup, brk: tup, brkVar: brkVar, ret: func([]string) string {
+	kb := bcont{fall: tup, cont: tup, brk: tup, brkVar: brkVar, ret: func([]string) string {
 		problem("%s: return inside a loop", c.where)
 		return tup
 	}}
 	if brkVar == "" {
-		k.brk = ""
+		kb.brk = ""
 	}
-	c.noBind++
-	c.block(body, k, out, bodyInd)
-	c.noBind--
+	saveNoBind := c.noBind
+	if retVar != "" {
+		kb.retVar = retVar
+		kb.ret = func(vals []string) string {
+			return "let " + retVar + " : Option (RESTYPE⟦⟧) := some (RESULT⟦" + strings.Join(vals, " ;; ") + "⟧); " + tup
+		}
+		kb.pan = func(pv string) string {
+			return "let " + retVar + " : Option (RESTYPE⟦⟧) := some (" + c.panText(pv) + "); " + tup
+		}
+		kb.after = func(rv, _ string) string { return "if (" + rv + ").isSome then " + tup + " else" }
+		// the rest of the body is the continuation of a call that may panic
+		c.noBind = 0
+	} else {
+		c.noBind++
+	}
+	c.block(body, kb, out, bodyInd)
+	c.noBind = saveNoBind
 	fmt.Fprintf(out, "%s) %s\n", ind+"  ", tup)
 	c.restoreVars(save)
 	c.markAssigned(names)
+	if retVar != "" {
+		if k.after == nil {
+			problem("%s: a loop that may return or panic inside a branch that joins", c.where)
+		} else if a := k.after(retVar, ind); a != "" {
+			fmt.Fprintf(out, "%s%s\n", ind, a)
+		}
+	}
 }
 
-func (c *bctx) rangeStmt(s *ast.RangeStmt, out *strings.Builder, ind string) {
+func (c *bctx) rangeStmt(s *ast.RangeStmt, k bcont, out *strings.Builder, ind string) {
 	keyName, valName := "_", "_"
 	if s.Key != nil {
 		keyName = s.Key.(*ast.Ident).Name
@@ -1840,7 +2224,7 @@ func (c *bctx) rangeStmt(s *ast.RangeStmt, out *strings.Builder, ind string) {
 		}
 		c.loop("List.range ("+xs+")", idx, func(b *strings.Builder, ind string) {
 			c.vars[idx] = &bvar{ty: tyInt}
-		}, s.Body.List, out, ind)
+		}, s.Body.List, k, out, ind)
 	case "slice":
 		idx := keyName
 		if idx == "_" {
@@ -1859,7 +2243,7 @@ func (c *bctx) rangeStmt(s *ast.RangeStmt, out *strings.Builder, ind string) {
 					c.vars[valName] = &bvar{ty: xt.elem}
 				}
 			}
-		}, s.Body.List, out, ind)
+		}, s.Body.List, k, out, ind)
 	case "map":
 		if keyName != "_" || valName == "_" || !xt.elem.isRef() {
 			c.bad(s, "range over a map (only `for _, v := range m` with pointer values)")
@@ -1874,7 +2258,7 @@ func (c *bctx) rangeStmt(s *ast.RangeStmt, out *strings.Builder, ind string) {
 			if len(names) == 0 {
 				var discard strings.Builder
 				c.vars[valName] = &bvar{ty: xt.elem}
-				c.block(s.Body.List, bcont{fall: "()", cont: "()", brk: "()", brkVar: "brk_scratch", ret: func([]string) string { return "()" }}, &discard, "")
+				c.block(s.Body.List, c.dummyK(), &discard, "")
 				c.restoreVars(save)
 				return
 			}
@@ -1882,12 +2266,15 @@ func (c *bctx) rangeStmt(s *ast.RangeStmt, out *strings.Builder, ind string) {
 			return
 		}
 		var body strings.Builder
-		k := bcont{fall: valName, cont: valName, ret: func([]string) string {
+		km := bcont{fall: valName, cont: valName, ret: func([]string) string {
 			problem("%s: return inside a loop", c.where)
+			return valName
+		}, pan: func(string) string {
+			problem("%s: panic inside a loop over a map", c.where)
 			return valName
 		}}
 		c.noBind++
-		c.block(s.Body.List, k, &body, ind+"    ")
+		c.block(s.Body.List, km, &body, ind+"    ")
 		c.noBind--
 		c.restoreVars(save)
 		c.setPath(c.resolve(s.X), "(AL.mapVals ("+xs+") (fun "+valName+" =>\n"+body.String()+ind+"  ))", out, ind)
@@ -1897,7 +2284,7 @@ func (c *bctx) rangeStmt(s *ast.RangeStmt, out *strings.Builder, ind string) {
 }
 
 // for i := a; i < len(x); i++ { body }  where the body keeps len(x)
-func (c *bctx) forStmt(s *ast.ForStmt, out *strings.Builder, ind string) {
+func (c *bctx) forStmt(s *ast.ForStmt, k bcont, out *strings.Builder, ind string) {
 	init, ok1 := s.Init.(*ast.AssignStmt)
 	cond, ok2 := s.Cond.(*ast.BinaryExpr)
 	post, ok3 := s.Post.(*ast.IncDecStmt)
@@ -1949,7 +2336,7 @@ func (c *bctx) forStmt(s *ast.ForStmt, out *strings.Builder, ind string) {
 	c.under = append(c.under, src(cond.Y)+" - "+src(init.Rhs[0]))
 	c.loop("List.range' ("+lo+") ("+his+" - "+lo+")", iv, func(b *strings.Builder, ind string) {
 		c.vars[iv] = &bvar{ty: tyInt}
-	}, s.Body.List, out, ind)
+	}, s.Body.List, k, out, ind)
 }
 
 // ---------------------------------------------------------------------------------------------
@@ -2077,15 +2464,46 @@ var leanKeywords = map[string]bool{"by": true, "at": true, "do": true, "fun": tr
 	"exists": true, "forall": true, "extends": true, "class": true, "inductive": true, "abbrev": true, "opaque": true,
 	"attribute": true, "termination_by": true, "decreasing_by": true, "nomatch": true, "nofun": true, "set_option": true}
 
+// mentionsOwn: does the signature of the function mention a struct the current group renders itself?
+func (b *book) mentionsOwn(fd *ast.FuncDecl) bool {
+	if b.cur == nil || len(b.cur.own) == 0 {
+		return false
+	}
+	found := false
+	look := func(fl *ast.FieldList) {
+		if fl == nil {
+			return
+		}
+		for _, f := range fl.List {
+			ast.Inspect(f.Type, func(n ast.Node) bool {
+				if id, ok := n.(*ast.Ident); ok {
+					if _, own := b.cur.own[id.Name]; own {
+						found = true
+					}
+				}
+				return true
+			})
+		}
+	}
+	look(fd.Recv)
+	look(fd.Type.Params)
+	look(fd.Type.Results)
+	return found
+}
+
 func (b *book) translate(key bookFnKey) *bookFnInfo {
-	if info, ok := b.fns[key]; ok {
+	fd, file := b.findDecl(key)
+	ckey := fnCacheKey{key, ""}
+	if fd != nil && b.mentionsOwn(fd) {
+		ckey.variant = b.cur.file
+	}
+	if info, ok := b.fns[ckey]; ok {
 		return info
 	}
 	if b.stack[key] {
 		problem("recursive call of %s.%s", key.recv, key.name)
 		return nil
 	}
-	fd, file := b.findDecl(key)
 	if fd == nil {
 		problem("function %s.%s not found", key.recv, key.name)
 		return nil
@@ -2126,8 +2544,9 @@ func (b *book) translate(key bookFnKey) *bookFnInfo {
 			bodyStmts = bodyStmts[at+1:]
 		}
 	}
+	info.exc = b.cur != nil && b.cur.panicMsgs
 	c := &bctx{b: b, where: file + ":" + info.leanName, vars: map[string]*bvar{}, mutated: map[string]bool{},
-		assigned: map[string]bool{}, info: info}
+		assigned: map[string]bool{}, info: info, exc: info.exc}
 	nprob := len(problems)
 
 	tparams := map[string]bool{}
@@ -2171,11 +2590,44 @@ func (b *book) translate(key bookFnKey) *bookFnInfo {
 		}
 	}
 	if fd.Type.Results != nil {
+		// a pointer result is `Option` when the function returns a literal `nil` in its position
+		nilAt := map[int]bool{}
+		ast.Inspect(fd.Body, func(n ast.Node) bool {
+			switch x := n.(type) {
+			case *ast.FuncLit:
+				return false
+			case *ast.ReturnStmt:
+				for i, r := range x.Results {
+					if id, ok := r.(*ast.Ident); ok && id.Name == "nil" {
+						nilAt[i] = true
+					}
+				}
+			}
+			return true
+		})
+		resType := func(i int, e ast.Expr) *gty {
+			t := b.goType(e, tparams)
+			if t.kind == "ptr" && nilAt[i] {
+				t = &gty{kind: "ptr", elem: t.elem, nilable: true}
+			}
+			return t
+		}
+		pos := 0
+		for _, r := range fd.Type.Results.List {
+			n := len(r.Names)
+			if n == 0 {
+				n = 1
+			}
+			for j := 0; j < n; j++ {
+				info.retParts = append(info.retParts, resType(pos, r.Type))
+				pos++
+			}
+		}
 		if len(fd.Type.Results.List) != 1 || len(fd.Type.Results.List[0].Names) > 1 {
 			// several results: a tuple
 			var parts []*gty
-			for _, r := range fd.Type.Results.List {
-				parts = append(parts, b.goType(r.Type, tparams))
+			for i, r := range fd.Type.Results.List {
+				parts = append(parts, resType(i, r.Type))
 			}
 			info.ret = &gty{kind: "tuple", name: ""}
 			info.ret.elem = nil
@@ -2189,14 +2641,19 @@ func (b *book) translate(key bookFnKey) *bookFnInfo {
 			}
 			info.ret.name = strings.Join(ls, " × ")
 		} else {
-			info.ret = b.goType(fd.Type.Results.List[0].Type, tparams)
+			info.ret = resType(0, fd.Type.Results.List[0].Type)
 		}
 	}
 
 	// The shape of the result is only known after the body was translated (which variables are
 	// mutated): translate with placeholders and patch.
 	var body strings.Builder
-	k := bcont{fall: "RESULT[]", ret: func(vals []string) string { return "RESULT[" + strings.Join(vals, " ;; ") + "]" }}
+	k := bcont{fall: "RESULT⟦⟧", ret: func(vals []string) string { return "RESULT⟦" + strings.Join(vals, " ;; ") + "⟧" },
+		pan: c.panText,
+		after: func(rv, ind string) string {
+			r := c.fresh("r")
+			return "match " + rv + " with\n" + ind + "| some " + r + " => " + r + "\n" + ind + "| none =>"
+		}}
 	for _, st := range prelude {
 		c.define(st.Lhs[0].(*ast.Ident).Name, st.Rhs[0], &body, "  ")
 	}
@@ -2233,11 +2690,16 @@ func (b *book) translate(key bookFnKey) *bookFnInfo {
 		resTy = strings.Join(resParts, " × ")
 	}
 	if info.mayPanic {
-		resTy = "Option (" + resTy + ")"
+		if info.exc {
+			resTy = "GoRes (" + resTy + ")"
+		} else {
+			resTy = "Option (" + resTy + ")"
+		}
 	}
 	text := body.String()
-	// patch RESULT[...] and TAILCALL[...]
-	text = patchResults(text, stateVars, info.mayPanic)
+	// patch RESULT⟦...⟧, RESTYPE⟦⟧ and TAILCALL[...]
+	text = patchResults(text, stateVars, info.mayPanic, info.exc)
+	text = strings.ReplaceAll(text, "RESTYPE⟦⟧", resTy)
 	under := ""
 	if len(c.under) > 0 {
 		under = "/- truncated subtractions (no underflow assumed): " + strings.Join(c.under, " | ") + " -/\n"
@@ -2253,14 +2715,18 @@ func (b *book) translate(key bookFnKey) *bookFnInfo {
 	info.ok = len(problems) == nprob
 	b.counter++
 	info.order = b.counter
-	b.fns[key] = info
+	b.fns[ckey] = info
 	return info
 }
 
-func patchResults(text string, stateVars []string, mayPanic bool) string {
+func patchResults(text string, stateVars []string, mayPanic, exc bool) string {
+	okCtor := "some "
+	if exc {
+		okCtor = ".ok "
+	}
 	var out strings.Builder
 	for {
-		i := strings.Index(text, "RESULT[")
+		i := strings.Index(text, "RESULT⟦")
 		j := strings.Index(text, "TAILCALL[")
 		if i < 0 && j < 0 {
 			out.WriteString(text)
@@ -2275,7 +2741,7 @@ func patchResults(text string, stateVars []string, mayPanic bool) string {
 			nl := strings.Index(rest, "\n")
 			app := rest[:nl]
 			if mayPanic && !calleePanics {
-				out.WriteString("some " + app)
+				out.WriteString(okCtor + app)
 			} else {
 				out.WriteString(app)
 			}
@@ -2283,8 +2749,8 @@ func patchResults(text string, stateVars []string, mayPanic bool) string {
 			continue
 		}
 		out.WriteString(text[:i])
-		rest := text[i+len("RESULT["):]
-		e := strings.Index(rest, "]\n")
+		rest := text[i+len("RESULT⟦"):]
+		e := strings.Index(rest, "⟧")
 		vals := rest[:e]
 		var parts []string
 		parts = append(parts, stateVars...)
@@ -2295,10 +2761,10 @@ func patchResults(text string, stateVars []string, mayPanic bool) string {
 		}
 		r := tupleOf(parts)
 		if mayPanic {
-			r = "some " + r
+			r = okCtor + r
 		}
 		out.WriteString(r)
-		text = rest[e+1:]
+		text = rest[e+len("⟧"):]
 	}
 	return out.String()
 }
@@ -2312,44 +2778,72 @@ type bookGroup struct {
 	doc   string
 	fns   []bookFnKey
 	extra string // further imports
+	// Go structs this group renders as structures of its own (Go name -> Lean name), with the fields the
+	// functions of THIS group use (plus `ownFields`), so that the structures of the earlier files do not change
+	own       map[string]string
+	ownFields map[string][]string
+	panicMsgs bool // panics carry their message: the result type is `GoRes R` instead of `Option R`
 }
 
+// the fixed prelude of a group with `panicMsgs`
+const goResPrelude = `/-- a Go panic: the message (for ` + "`panic(fmt.Sprintf(f, a…))`" + ` the format string ` + "`f`" + `) and the integer arguments -/
+structure GoPanic where
+  msg : String
+  args : (List Nat) := []
+  deriving Repr, Inhabited, DecidableEq
+
+/-- result of a function that may panic, with the panic's message -/
+inductive GoRes (α : Type) where
+  | ok : α → GoRes α
+  | panic : GoPanic → GoRes α
+  deriving Repr, DecidableEq
+
+`
+
 var bookGroups = []bookGroup{
-	{"BookTableIDs", "tableIDs of archetype.go", []bookFnKey{
-		{"", "newTableIDs"}, {"tableIDs", "Append"}, {"tableIDs", "Remove"}, {"tableIDs", "Clear"}}, ""},
-	{"BookArchetype", "relation-index bookkeeping of archetype.go", []bookFnKey{
+	{file: "BookTableIDs", doc: "tableIDs of archetype.go", fns: []bookFnKey{
+		{"", "newTableIDs"}, {"tableIDs", "Append"}, {"tableIDs", "Remove"}, {"tableIDs", "Clear"}}, extra: ""},
+	{file: "BookArchetype", doc: "relation-index bookkeeping of archetype.go", fns: []bookFnKey{
 		{"archetype", "HasRelations"}, {"archetype", "GetFreeTable"}, {"archetype", "FreeTable"},
-		{"archetype", "removeTableRelations"}, {"archetype", "FreeAllTables"}, {"archetype", "AddTable"}, {"archetype", "RemoveTarget"}, {"archetype", "GetTables"}}, ""},
-	{"BookPool", "entityPool, bitPool, intPool of pool.go", []bookFnKey{
+		{"archetype", "removeTableRelations"}, {"archetype", "FreeAllTables"}, {"archetype", "AddTable"}, {"archetype", "RemoveTarget"}, {"archetype", "GetTables"}}, extra: ""},
+	{file: "BookPool", doc: "entityPool, bitPool, intPool of pool.go", fns: []bookFnKey{
 		{"entityPool", "getNew"}, {"entityPool", "Get"}, {"entityPool", "Recycle"}, {"entityPool", "Reset"},
 		{"entityPool", "Len"}, {"entityPool", "Cap"},
 		{"bitPool", "getNew"}, {"bitPool", "Get"}, {"bitPool", "Recycle"}, {"bitPool", "Reset"},
-		{"intPool", "Recycle"}, {"intPool", "Reset"}}, ""},
-	{"BookCache", "filter cache bookkeeping of cache.go", []bookFnKey{
-		{"cache", "getEntry"}, {"cache", "unregister"}, {"cache", "removeTable"}, {"cache", "Reset"}}, ""},
-	{"BookLock", "lock.go over the translated bit pool and the word-level mask (mutex calls erased: sequential semantics)", []bookFnKey{
+		{"intPool", "Recycle"}, {"intPool", "Reset"}}, extra: ""},
+	{file: "BookCache", doc: "filter cache bookkeeping of cache.go", fns: []bookFnKey{
+		{"cache", "getEntry"}, {"cache", "unregister"}, {"cache", "removeTable"}, {"cache", "Reset"}}, extra: ""},
+	{file: "BookLock", doc: "lock.go over the translated bit pool and the word-level mask (mutex calls erased: sequential semantics)", fns: []bookFnKey{
 		{"", "newBitPool"}, {"", "newLock"}, {"lock", "Lock"}, {"lock", "Unlock"}, {"lock", "LockSafe"}, {"lock", "UnlockSafe"},
-		{"lock", "IsLocked"}, {"lock", "Reset"}}, "import Ark.Generated.Words"},
-	{"BookObservers", "events.go: the per-event aggregates (union masks, wildcard flags) that RemoveObserver recomputes — the tail of the function after the observer list was edited", []bookFnKey{
-		{"observerManager", "RemoveObserver"}, {"observerManager", "AddObserver"}}, "import Ark.Generated.Words"},
-	{"BookTableCaps", "table.go: the capacity decisions of Extend / Shrink / CanShrink (adjustCapacity modelled as `cap := c`)", []bookFnKey{
-		{"table", "Extend"}, {"table", "Shrink"}, {"table", "CanShrink"}}, "import Ark.Model.Table"},
-	{"BookStats", "the incremental statistics of archetype.go / table.go (archetype.UpdateStats over the re-used stats.Archetype)", []bookFnKey{
-		{"table", "Stats"}, {"table", "UpdateStats"}, {"archetype", "UpdateStats"}}, ""},
+		{"lock", "IsLocked"}, {"lock", "Reset"}}, extra: "import Ark.Generated.Words"},
+	{file: "BookObservers", doc: "events.go: the per-event aggregates (union masks, wildcard flags) that RemoveObserver recomputes — the tail of the function after the observer list was edited", fns: []bookFnKey{
+		{"observerManager", "RemoveObserver"}, {"observerManager", "AddObserver"}}, extra: "import Ark.Generated.Words"},
+	{file: "BookTableCaps", doc: "table.go: the capacity decisions of Extend / Shrink / CanShrink (adjustCapacity modelled as `cap := c`)", fns: []bookFnKey{
+		{"table", "Extend"}, {"table", "Shrink"}, {"table", "CanShrink"}}, extra: "import Ark.Model.Table"},
+	{file: "BookStats", doc: "the incremental statistics of archetype.go / table.go (archetype.UpdateStats over the re-used stats.Archetype)", fns: []bookFnKey{
+		{"table", "Stats"}, {"table", "UpdateStats"}, {"archetype", "UpdateStats"}}, extra: ""},
+	// the table lookup. `table` and `storage` are rendered as structures of this file (`components`,
+	// `relationIDs` are read only here; `id` is kept so that the returned table can be identified);
+	// panics carry their messages
+	{file: "BookLookup", doc: "the exact table lookup of archetype.go / table.go (GetTable, getTableSlowPath, MatchesExact, Matches); panics carry their message (`GoRes`), `table.components []*column` is `List (Option G_column)` (nil = no such column), a returned `*table` is the value of the table (`some`; `none` = nil), `uint8(len(relations))` is `length % 256`, `componentsMap []int16` is `List Nat` as in BookArchetype (-1, no column, is not representable: the bridge theorem excludes that Go runtime panic)",
+		fns: []bookFnKey{{"table", "MatchesExact"}, {"table", "Matches"}, {"archetype", "getTableSlowPath"}, {"archetype", "GetTable"}},
+		own: map[string]string{"table": "G_table_L", "storage": "G_storage_L"}, ownFields: map[string][]string{"table": {"id"}},
+		panicMsgs: true},
 }
 
 func genBook(p *pkgFiles, statsPkg *pkgFiles, files map[string]string) {
 	b := newBook(p)
 	b.addPackageStructs("stats", statsPkg)
-	owner := map[bookFnKey]string{} // function -> generated file that defines it
+	owner := map[fnCacheKey]string{} // function -> generated file that defines it
 	emittedStructs := map[string]bool{}
 	var prevFiles []string
 	// phase 1: translate everything (the generated structures list the fields ALL translated functions use)
 	groupNotes := map[string]string{}
-	groupOf := map[bookFnKey]int{}
+	groupOf := map[fnCacheKey]int{}
 	for gi, g := range bookGroups {
+		b.cur = &bookGroups[gi]
 		var notes strings.Builder
-		before := map[bookFnKey]bool{}
+		before := map[fnCacheKey]bool{}
 		for k := range b.fns {
 			before[k] = true
 		}
@@ -2368,11 +2862,12 @@ func genBook(p *pkgFiles, statsPkg *pkgFiles, files map[string]string) {
 	}
 	// phase 2: one file per group
 	for gi, g := range bookGroups {
+		b.cur = &bookGroups[gi]
 		var out strings.Builder
 		notes := groupNotes[g.file]
 		// the functions this file defines: everything translated so far that no earlier file owns
 		var defs []*bookFnInfo
-		var keys []bookFnKey
+		var keys []fnCacheKey
 		for k := range b.fns {
 			keys = append(keys, k)
 		}
@@ -2393,18 +2888,22 @@ func genBook(p *pkgFiles, statsPkg *pkgFiles, files map[string]string) {
 		}
 		out.WriteString(genHeader("T1 (bookkeeping level): "+g.doc+", translated statement by statement; regenerated on every run.", imports))
 		out.WriteString("namespace Book\n\n")
+		if g.panicMsgs {
+			out.WriteString(goResPrelude)
+		}
 		out.WriteString(notes)
 		// structures referenced by the signatures of this file's functions (and, transitively, by their fields)
 		var emit func(name string)
 		emit = func(name string) {
-			if emittedStructs[name] || bookExternal[name] != "" {
+			_, isOwn := g.own[name]
+			if emittedStructs[b.leanStruct(name)] || (bookExternal[name] != "" && !isOwn) {
 				return
 			}
-			gs, ok := b.structs[name]
+			gs, ok := b.gstructOf(name)
 			if !ok {
 				return
 			}
-			emittedStructs[name] = true
+			emittedStructs[b.leanStruct(name)] = true
 			var lines []string
 			var dep func(t *gty)
 			dep = func(t *gty) {
@@ -2420,7 +2919,7 @@ func genBook(p *pkgFiles, statsPkg *pkgFiles, files map[string]string) {
 			collect = func(s *gstruct) {
 				for _, fl := range s.fields {
 					if fl.name == "*embedded*" {
-						if is, ok := b.structs[fl.ty.deref().name]; ok {
+						if is, ok := b.gstructOf(fl.ty.deref().name); ok {
 							collect(is)
 						}
 						continue
@@ -2478,4 +2977,5 @@ func genBook(p *pkgFiles, statsPkg *pkgFiles, files map[string]string) {
 		files[g.file] = out.String()
 		prevFiles = append(prevFiles, g.file)
 	}
+	b.cur = nil
 }
